@@ -7,6 +7,7 @@ import PercevalModel.Lemmas.C10More
 import PercevalModel.Lemmas.C10Ext
 import PercevalModel.Lemmas.C10Hist
 import PercevalModel.Lemmas.C10HistR
+import PercevalModel.Lemmas.C10Wave7
 import PercevalModel.Num.GQ
 
 open Matrix
@@ -2630,5 +2631,235 @@ example :
     ((history true (some 3) [.herald 2 1 none, .port 0 1 "a" .inout, .add exRp (.ofInt 0) true,
         .rmport 0 .inout]).toOption.map fun e => (e.nmoi, e.cs, e.side.heralds, rightWFb e.side)) =
       some (2, 4, [(2, 1), (3, 1)], true) := by decide
+
+/-! # Wave 7 (proofs only): the herald counter against the herald ports, as an equivalence
+
+`history_right_wf` derived `RightWF` from `historyKeeps`; below the converse: along ANY history of successful calls
+`_n_heralds − len(heralds)` never decreases, and it grows by one exactly at a `remove_port` that takes a herald port off
+the output side — so the counter is in step with the herald ports (and the processor is a well-formed right-hand side
+with `_n_moi ≥ 0`) **iff** the history keeps its herald ports. -/
+
+/-- one accepted `add` keeps the distance between `_n_heralds` and the herald ports of `_out_ports` -/
+theorem addObj_gap (e e' : Exp) (r : Side) (raw : RawMap) (keep : Bool) (g : Nat) (hi : ExpInv e)
+    (hc : HerGap e g) (hrh : r.comp = false → r.heralds = heraldsOf r.outp)
+    (h : addObj true e r raw keep = .ok e') : HerGap e' g := by
+  unfold addObj at h
+  split at h
+  · cases h
+  · rename_i e1 h1
+    obtain ⟨hi1, -, -, -, -⟩ := defaultM_inv e e1 _ hi h1
+    have hc1 := defaultM_gap e e1 _ g hc h1
+    split at h
+    · cases h
+    · rename_i res hres
+      cases h
+      have hl : e1.side.conn.length = e1.side.cs := by
+        show (e1.mt.map MT.isPhot).length = e1.cs
+        rw [List.length_map, hi1.cs_eq]
+      obtain ⟨-, hheq, -⟩ := compose_keeps_heralds_reserved .all true true e1.side r raw keep res hl hrh
+        hi1.reserved hres
+      unfold HerGap
+      show (if r.comp then e1.nher else e1.nher + r.heralds.length) = (heraldsOf res.outp).length + g
+      rw [← hheq]
+      cases hcmp : r.comp with
+      | true =>
+        obtain ⟨-, hh, -⟩ := heralds_unchanged_component .all true true e1.side r raw keep res hcmp rfl
+          (HeraldPortsReserved.covered hi1.reserved) hres
+        rw [hh]
+        exact hc1
+      | false =>
+        obtain ⟨-, hh, -⟩ := heralds_appended .all true true e1.side r raw keep res hcmp rfl
+          (HeraldPortsReserved.covered hi1.reserved) (hrh hcmp) hres
+        rw [hh]
+        have h1' : e1.nher = (heraldsOf e1.outp).length + g := hc1
+        have h2' : (e1.side.heralds).length = (heraldsOf e1.outp).length := rfl
+        simp only [Bool.false_eq_true, if_false, List.length_append, List.length_zipWith, List.length_range,
+          Nat.min_self, h2']
+        omega
+
+/-- one successful call: the distance stays, or grows by one when the call takes a herald port off the output side -/
+theorem stepH_gap (e e' : Exp) (op : HOp) (g : Nat) (hi : ExpInv e) (hc : HerGap e g) (hok : op.rightOK)
+    (h : stepH true e op = .ok e') : HerGap e' (if op.keepsHeraldOut e = true then g else g + 1) := by
+  cases op with
+  | herald mode expected name => exact addHerald_gap e e' mode expected name g hc h
+  | port mode size name loc => exact addPort_gap e e' mode size name loc g hc h
+  | rmport mode loc => exact removePort_gap e e' mode loc g hc h
+  | det mode name => exact addDet_gap e e' mode name g hc h
+  | setps ps => cases h; exact hc
+  | add r raw keep => exact addObj_gap e e' r raw keep g hi hc hok h
+
+/-- along a history of successful calls the distance never shrinks, and it is unchanged exactly when no call took a
+herald port off the output side -/
+theorem runH_gap (ops : List HOp) (e0 e : Exp) (g : Nat) (hok : ∀ op ∈ ops, op.rightOK)
+    (hi0 : ExpInv e0) (hc0 : HerGap e0 g) (h : runH true e0 ops = .ok e) :
+    ∃ g', g ≤ g' ∧ HerGap e g' ∧ (g' = g ↔ keepsHeraldOut true e0 ops = true) := by
+  induction ops generalizing e0 g with
+  | nil => cases h; exact ⟨g, le_refl _, hc0, by simp [keepsHeraldOut]⟩
+  | cons op rest ih =>
+    unfold runH at h
+    unfold keepsHeraldOut
+    split at h
+    · cases h
+    · rename_i e1 h1
+      simp only [h1, Bool.and_eq_true]
+      have hi1 := stepH_inv e0 e1 op hi0 (hok op List.mem_cons_self) h1
+      have hc1 := stepH_gap e0 e1 op g hi0 hc0 (hok op List.mem_cons_self) h1
+      obtain ⟨g', hle, hg', hiff⟩ := ih e1 _ (fun o ho => hok o (List.mem_cons_of_mem _ ho)) hi1 hc1 h
+      refine ⟨g', ?_, hg', ?_⟩
+      · split_ifs at hle <;> omega
+      · by_cases hk : op.keepsHeraldOut e0 = true
+        · rw [if_pos hk] at hle hiff
+          rw [hiff]; simp [hk]
+        · rw [if_neg hk] at hle hiff
+          constructor
+          · intro hh; omega
+          · intro hh; exact absurd hh.1 hk
+
+/-- **the herald counter, as an equivalence**: after ANY history of successful public calls `_n_heralds` is at least
+the number of herald ports of `_out_ports` (= `len(heralds)`), and the two are equal **iff** no `remove_port` of the
+history took a herald port off the output side -/
+theorem history_count_iff (m : Option Nat) (ops : List HOp) (e : Exp)
+    (hok : ∀ op ∈ ops, op.rightOK) (h : history true m ops = .ok e) :
+    e.side.heralds.length ≤ e.nher ∧ (e.nher = e.side.heralds.length ↔ historyKeeps m ops = true) := by
+  unfold history at h
+  unfold historyKeeps
+  split at h
+  · cases h
+  · rename_i e0 h0
+    simp only [h0]
+    have hi0 := new_inv m e0 h0
+    have hc0 : HerGap e0 0 := by
+      unfold Exp.new at h0
+      split at h0
+      · cases h0; rfl
+      · split_ifs at h0; cases h0; rfl
+    obtain ⟨g', -, hg', hiff⟩ := runH_gap ops e0 e 0 hok hi0 hc0 h
+    have hg : e.nher = (heraldsOf e.outp).length + g' := hg'
+    show (heraldsOf e.outp).length ≤ e.nher ∧ (e.nher = (heraldsOf e.outp).length ↔ _)
+    refine ⟨by omega, ?_⟩
+    rw [← hiff]
+    omega
+
+/-- **`RightWF` from the history, as an equivalence**: a processor built by a history of successful public calls is
+a well-formed right-hand side with a non-negative `_n_moi` **iff** no `remove_port` of its history took a herald port
+off the output side (`history_right_wf` is the direction from right to left) -/
+theorem history_right_wf_iff (m : Option Nat) (ops : List HOp) (e : Exp)
+    (hok : ∀ op ∈ ops, op.rightOK) (h : history true m ops = .ok e) :
+    (RightWF e.side ∧ 0 ≤ e.nmoi) ↔ historyKeeps m ops = true := by
+  constructor
+  · rintro ⟨hwf, hnn⟩
+    rw [← (history_count_iff m ops e hok h).2]
+    have h3 : e.nmoi.toNat + (heraldsOf e.outp).length = (e.nmoi + (e.nher : Int)).toNat := (hwf rfl).2.2
+    show e.nher = (heraldsOf e.outp).length
+    omega
+  · intro hk
+    obtain ⟨hwf, hnn, -, -⟩ := history_right_wf m ops e hok hk h
+    exact ⟨hwf, hnn⟩
+
+/-- non-vacuity of both sides of the equivalences: a life that keeps its herald ports, and one that does not -/
+example :
+    historyKeeps (some 2) [.herald 0 1 none, .rmport 0 .input] = true ∧
+    historyKeeps (some 2) [.herald 0 1 none, .rmport 0 .output] = false ∧
+    ((history true (some 2) [.herald 0 1 none, .rmport 0 .output]).toOption.map fun e =>
+      (e.nher, e.side.heralds.length)) = some (1, 0) := by decide
+
+/-! # Wave 7: the verdict of the add of a bare component, end to end -/
+
+/-- **the verdict of `add(mapping, component)`, end to end**: on a processor without post-selection the add of a bare
+component through an offset or list mapping is accepted exactly when `resolve` accepts the mapping, and refused with
+exactly the error of `resolve` otherwise — `generate_permutation` / `PERM` never refuse what `resolve` accepted -/
+theorem add_component_verdict (f1 : RFlags) (f2 f3 : Bool) (l r : Side) (raw : RawMap) (keep : Bool)
+    (hr : r.comp = true) (hraw : ∀ items, raw ≠ .ofDict items) (hps : l.ps = none) :
+    ((∃ res, compose f1 f2 f3 l r raw keep = .ok res) ↔ ∃ d, resolve f1 l r raw = .ok d) ∧
+    (∀ x, compose f1 f2 f3 l r raw keep = .error x ↔ resolve f1 l r raw = .error x) := by
+  have hwf : RightWF r := fun hc => by rw [hr] at hc; cases hc
+  have hna := compose_int_list_never_assertion f1 f2 f3 l r raw keep hraw hwf hps
+  cases hres : resolve f1 l r raw with
+  | error y =>
+    have hc : compose f1 f2 f3 l r raw keep = .error y := by
+      cases hc : compose f1 f2 f3 l r raw keep with
+      | ok res =>
+        obtain ⟨d, -, -, hd, -⟩ := compose_comp_inv f1 f2 f3 l r raw keep res hr hc
+        rw [hres] at hd; cases hd
+      | error x =>
+        rcases compose_comp_error_inv f1 f2 f3 l r raw keep x hr hc with h1 | ⟨d, hd, -⟩
+        · rw [hres] at h1; cases h1; rfl
+        · rw [hres] at hd; cases hd
+    rw [hc]
+    refine ⟨⟨?_, ?_⟩, fun x => ?_⟩
+    · rintro ⟨_, h⟩; cases h
+    · rintro ⟨_, h⟩; cases h
+    · constructor <;> (intro h; cases h; rfl)
+  | ok d =>
+    cases hc : compose f1 f2 f3 l r raw keep with
+    | ok res =>
+      refine ⟨⟨fun _ => ⟨d, rfl⟩, fun _ => ⟨res, rfl⟩⟩, fun x => ?_⟩
+      constructor <;> (intro h; cases h)
+    | error x =>
+      rcases compose_comp_error_inv f1 f2 f3 l r raw keep x hr hc with h1 | ⟨_, -, hx⟩
+      · rw [hres] at h1; cases h1
+      · rw [hx] at hc; exact absurd hc hna
+
+/-- **`add(b, component)` in closed form, end to end**: on a processor without post-selection a component with
+`m ≥ 1` modes plugged at offset `b` is accepted iff the modes `b … b+m-1` are all connectible, and refused otherwise
+with `UnavailableModeException` and nothing else -/
+theorem add_component_offset_iff (f1 : RFlags) (f2 f3 : Bool) (l r : Side) (b : Int) (keep : Bool)
+    (hr : r.comp = true) (hm : 0 < r.m) (hps : l.ps = none) :
+    ((∃ res, compose f1 f2 f3 l r (.ofInt b) keep = .ok res) ↔
+      ∀ i : Nat, i < r.m → connectible l.cs l.conn (b + i) = true) ∧
+    (∀ x, compose f1 f2 f3 l r (.ofInt b) keep = .error x ↔
+      x = .unavailable ∧ ∃ i : Nat, i < r.m ∧ connectible l.cs l.conn (b + i) = false) := by
+  have hwf : RightWF r := fun hc => by rw [hr] at hc; cases hc
+  obtain ⟨h1, h2⟩ := add_component_verdict f1 f2 f3 l r (.ofInt b) keep hr (fun items h => by cases h) hps
+  refine ⟨?_, fun x => ?_⟩
+  · rw [h1]
+    constructor
+    · rintro ⟨d, hd⟩
+      exact ((resolve_int_ok_iff_wf f1 l r b d hm hwf).1 hd).2
+    · intro h
+      exact ⟨_, (resolve_int_ok_iff_wf f1 l r b _ hm hwf).2 ⟨rfl, h⟩⟩
+  · rw [h2 x, resolve_int_error_iff_wf f1 l r b x hm hwf]
+
+/-- the hypothesis `l.ps = none` cannot be dropped from the verdict: with a left post-selection on mode 0 only, a
+two-mode component at offset 0 is resolved but refused by `can_compose_with` -/
+example :
+    let l : Side := ⟨false, 2, 2, [true, true], [], [none, none], [], [], ["", ""], ["", ""],
+      some (.cond [0] .eq 1)⟩
+    let r : Side := ⟨true, 2, 2, [], [], [], [], [], [], [], none⟩
+    (resolve .all l r (.ofInt 0)).toOption.isSome = true ∧
+    (compose .all true true l r (.ofInt 0) true).toOption.isSome = false := by decide
+
+/-- non-vacuity: a two-mode component at offset 1 of a three-mode processor is accepted, at offset 2 refused -/
+example :
+    let l : Side := ⟨false, 3, 3, [true, true, true], [], [none, none, none], [], [], ["", "", ""], ["", "", ""],
+      none⟩
+    let r : Side := ⟨true, 2, 2, [], [], [], [], [], [], [], none⟩
+    (compose .all true true l r (.ofInt 1) true).toOption.isSome = true ∧
+    (compose .all true true l r (.ofInt 2) true).toOption.isSome = false := by decide
+
+/-- **`add([k0, k1, …], component)` in closed form, end to end**: on a processor without post-selection a component
+with `m ≥ 1` modes plugged on the listed modes is accepted iff the list has `m` entries, no repetition and only
+connectible modes; it is refused with `InvalidMappingException` iff the size is wrong or a mode is repeated, and with
+`UnavailableModeException` iff it is a duplicate-free list of the right size naming a mode that is not connectible -/
+theorem add_component_list_iff (f1 : RFlags) (f2 f3 : Bool) (l r : Side) (ks : List Int) (keep : Bool)
+    (hr : r.comp = true) (hm : 0 < r.m) (hps : l.ps = none) :
+    ((∃ res, compose f1 f2 f3 l r (.ofList ks) keep = .ok res) ↔
+      ks.length = r.m ∧ ks.Nodup ∧ ∀ k ∈ ks, connectible l.cs l.conn k = true) ∧
+    (compose f1 f2 f3 l r (.ofList ks) keep = .error .invalid ↔ ks.length ≠ r.m ∨ ¬ ks.Nodup) ∧
+    (compose f1 f2 f3 l r (.ofList ks) keep = .error .unavailable ↔
+      ks.length = r.m ∧ ks.Nodup ∧ ∃ k ∈ ks, connectible l.cs l.conn k = false) := by
+  have hwf : RightWF r := fun hc => by rw [hr] at hc; cases hc
+  obtain ⟨h1, h2⟩ := add_component_verdict f1 f2 f3 l r (.ofList ks) keep hr (fun items h => by cases h) hps
+  refine ⟨?_, ?_, ?_⟩
+  · rw [h1]
+    constructor
+    · rintro ⟨d, hd⟩
+      obtain ⟨a, b, c, -⟩ := (resolve_list_ok_iff f1 l r ks d hm hwf).1 hd
+      exact ⟨a, b, c⟩
+    · rintro ⟨a, b, c⟩
+      exact ⟨_, (resolve_list_ok_iff f1 l r ks _ hm hwf).2 ⟨a, b, c, rfl⟩⟩
+  · rw [h2, resolve_list_invalid_iff f1 l r ks hm hwf]
+  · rw [h2, resolve_list_unavailable_iff f1 l r ks hm hwf]
+
 
 end PM.C10
